@@ -337,6 +337,22 @@ func init() {
 		n := c64(len(o.elems))
 		return &SliceVal{obj: o.id, off: c64(0), len: n, cap: n, elem: bt}
 	}
+	intrinsics[vrt+"RandAllLog"] = func(ex *Exec, st *State, fr *Frame, c *ssa.Call, a []Value) Value {
+		// every delivery of the random source so far, in order (rand.Int values as 256 octets)
+		bt := types.NewSlice(types.Typ[types.Uint8])
+		o := st.newObject(objArr, bt)
+		for _, d := range st.draws {
+			switch d.Kind {
+			case "rand":
+				o.elems = append(o.elems, ex.newBytes(st, d.ts))
+			case "randint":
+				all := splitBytes(d.ts[0], bigW/8)
+				o.elems = append(o.elems, ex.newBytes(st, all[len(all)-256:]))
+			}
+		}
+		n := c64(len(o.elems))
+		return &SliceVal{obj: o.id, off: c64(0), len: n, cap: n, elem: bt}
+	}
 	intrinsics[vrt+"RandReads"] = func(ex *Exec, st *State, fr *Frame, c *ssa.Call, a []Value) Value {
 		return c64(st.randCnt)
 	}
@@ -857,6 +873,13 @@ func init() {
 		ex.oblige(st, mkCmp(OpSle, mkBV(64, 0), v), "engine:big-negative", "negative big.Int is outside the modelled domain")
 		return ex.newBig(st, mkZext(bigW, v))
 	}
+	intrinsics["(*math/big.Int).BitLen"] = func(ex *Exec, st *State, fr *Frame, c *ssa.Call, a []Value) Value {
+		x := ex.bigOf(st, a[0].(*Ptr))
+		if v, ok := x.ConstBig(); ok {
+			return c64(v.BitLen())
+		}
+		panic(engineErr("big.Int.BitLen of a symbolic value"))
+	}
 	intrinsics["(*math/big.Int).Sign"] = func(ex *Exec, st *State, fr *Frame, c *ssa.Call, a []Value) Value {
 		x := ex.bigOf(st, a[0].(*Ptr))
 		return mkIte(mkEq(x, mkBV(bigW, 0)), c64(0), c64(1))
@@ -1205,6 +1228,49 @@ func (ex *Exec) boolSlice(st *State, v Value) []*Term {
 		out[i] = o.elems[off+i].(*Term)
 	}
 	return out
+}
+
+// randRead models one Read call on crypto/rand.Reader used directly as an io.Reader: besides filling the
+// buffer it may deliver fewer octets (at least one) without an error, which is all io.Reader promises.
+func (ex *Exec) randRead(st *State, buf *SliceVal) Value {
+	n := ex.concretize(st, buf.len, "random read length", 4096)
+	short := 0
+	for _, d := range st.draws {
+		if d.Kind == "randshort" {
+			short++
+		}
+	}
+	if n < 2 || ex.cfg.Concrete || short >= 1 {
+		return ex.randFill(st, buf) // bound: only the first direct Read on a path may be short
+	}
+	// (a forked alternative re-executes this call with its choice forced: nothing may be recorded in the
+	// state before the choice is made)
+	sel := freshVar("randshort", BV(8))
+	conds := []*Term{mkEq(sel, mkBV(8, 0)), mkEq(sel, mkBV(8, 1)), mkEq(sel, mkBV(8, 2))}
+	k := n
+	switch ex.choose(st, conds, false) {
+	case 1:
+		k = 1
+	case 2:
+		k = n - 1
+	}
+	isShort := 0
+	if k != n {
+		isShort = 1
+	}
+	st.draws = append(st.draws, Draw{Kind: "randshort", N: isShort, ts: []*Term{sel}})
+	if k == n {
+		return ex.randFill(st, buf)
+	}
+	st.randCnt++
+	if st.faultAt == st.randCnt {
+		return &TupleVal{vals: []Value{c64(0), ex.newOpaqueError("random source: injected failure")}}
+	}
+	ts := ex.drawBytes(st, "rand", k)
+	for i, t := range ts {
+		ex.setByte(st, buf.obj, mkBin(OpAdd, buf.off, c64(i)), t)
+	}
+	return &TupleVal{vals: []Value{c64(k), &IfaceVal{}}}
 }
 
 func (ex *Exec) randFill(st *State, buf *SliceVal) Value {
